@@ -24,6 +24,7 @@ func tgtScope() *hcl.EvalContext {
 		"ur": cty.UnknownVal(cty.Number).Refine().NotNull().NumberRangeInclusive(n(0), n(1)).NewValue(),
 		"ux": cty.UnknownVal(cty.Number).Refine().NotNull().NumberRangeLowerBound(n(1), false).NewValue(),
 		"uy": cty.UnknownVal(cty.Number).Refine().NotNull().NumberRangeUpperBound(n(1), false).NumberRangeLowerBound(n(0), true).NewValue(),
+		"comb": cty.StringVal("\u0301tat"), "uml": cty.StringVal("\u0308"), "plain": cty.StringVal("xyz"),
 		"ub": cty.UnknownVal(cty.Bool),
 		"ul": cty.UnknownVal(cty.List(cty.Number)).Refine().NotNull().CollectionLengthLowerBound(1).CollectionLengthUpperBound(2).NewValue(),
 		"um": cty.UnknownVal(cty.Map(cty.String)),
@@ -75,4 +76,25 @@ func tgtExpr(r *hv.Rng) string {
 		e = wrapH(tgtCtx[r.Intn(len(tgtCtx))], e)
 	}
 	return e
+}
+
+// tgtLongTemplate: a template whose KNOWN leading text is about as long as the 128-byte cap that
+// TemplateExpr.Value puts on the string-prefix refinement, with the cut falling at or next to a part
+// boundary where the next known part begins with a combining mark (NFC composes it with the last
+// letter of the previous part), a multi-byte rune straddling the cut, or plain text; then an unknown.
+func tgtLongTemplate(r *hv.Rng) string {
+	n := 116 + r.Intn(24)
+	var sb strings.Builder
+	sb.WriteString("\"")
+	fill := r.Pick("d", "d", "é", "日", "ab")
+	for sb.Len()-1 < n-1 {
+		sb.WriteString(fill)
+	}
+	sb.WriteString(r.Pick("e", "e", "a", "u", "x"))
+	sb.WriteString(r.Pick("${comb}", "${comb}", "${uml}", "${plain}", "\u0301", ""))
+	sb.WriteString(r.Pick("/", "", "-", "${plain}"))
+	sb.WriteString(r.Pick("${us}", "${up}", "${un}", "${du}", "${ub ? us : \"k\"}"))
+	sb.WriteString(r.Pick("", "tail", "${comb}"))
+	sb.WriteString("\"")
+	return sb.String()
 }
